@@ -332,6 +332,12 @@ def gen_history(seed, index):
                     j = rng.randrange(D)
                     p[j] += rng.choice([0.2, 0.45, 0.55, 1.5, -0.2, -0.45, -0.55]) * tol
                     U.append(p)
+                elif c < 0.62:
+                    # a hair beyond / exactly on / a hair inside a face of the box
+                    p = [rng.choice(GRID) for _ in range(D)]
+                    j = rng.randrange(D)
+                    p[j] = rng.choice([-1.0, 1.0]) * (1.0 + rng.choice([1e-15, 1e-12, 1e-9, 1e-6, 1e-5, 0.0, -1e-9, -1e-6]))
+                    U.append(p)
                 elif c < 0.7:
                     U.append([rng.choice([-1.5, 1.5, 2.0]) if rng.random() < 0.5 else rng.choice(GRID) for _ in range(D)])
                 else:
